@@ -6,8 +6,11 @@ import (
 	"encoding/base64"
 	"encoding/json"
 	"fmt"
+	"github.com/mimiro-io/datahub/internal/verifrt/engine"
 	"os"
+	"strings"
 	"sync"
+	"time"
 
 	"github.com/DataDog/datadog-go/v5/statsd"
 	"go.uber.org/zap"
@@ -216,3 +219,28 @@ func runJob(jb *job) (panicked string) {
 var _ = model.NewWorld
 
 func os_stderr() *os.File { return os.Stderr }
+
+// jPeerPart runs the HTTP-peer enumeration (worker "http-peer", registered by the web harness) and adds the
+// violations that belong to the given property.
+func jPeerPart(r *engine.Run, prop string) {
+	pl := &engine.Pool{N: 1, Args: []string{"worker", "http-peer"}, Timeout: 600 * time.Second}
+	out := pl.Do([]json.RawMessage{json.RawMessage(`{}`)}, nil)
+	var pr struct {
+		Cases int                `json:"cases"`
+		Viol  []engine.Violation `json:"viol"`
+		Err   string             `json:"err"`
+	}
+	if out[0].Err != "" || json.Unmarshal(out[0].Out, &pr) != nil || pr.Err != "" {
+		r.Cap("http-peer: " + out[0].Err + " " + pr.Err)
+		return
+	}
+	for _, v := range pr.Viol {
+		if strings.HasPrefix(v.Key, prop+":") {
+			v.Replay = map[string]interface{}{"worker": []string{"worker", "http-peer"}}
+			r.AddViolation(v)
+		}
+	}
+	r.Evaluations += pr.Cases
+	r.Traces += pr.Cases
+	r.AddPart(map[string]interface{}{"engine": "ENUM", "name": "http-peer", "cases": pr.Cases})
+}
